@@ -32,18 +32,29 @@ ReconSpec(r) == /\ r.ok = ReconDefined(r.k, r.m, r.len, SetOf(r.miss), Req(r))
                 /\ r.othersNil
 
 MultiProp(r) == /\ ~r.err
-                /\ \A i \in 1..Len(r.per) : r.per[i].fresh /\ r.per[i].decOK      \* no encoding corrupted by the others
+                /\ \A i \in 1..Len(r.per) : /\ r.per[i].lensEq          \* equal part lengths
+                                            /\ r.per[i].hashOK          \* announced hashes match the parts AFTER all rules
+                                            /\ r.per[i].fresh           \* no encoding corrupted by the others
+                                            /\ r.per[i].decOK           \* payload restored with parts lost
                 /\ Len(r.per) = Len(r.rules)
                 /\ r.attrOK /\ r.payloadSame
+\* ordered rule sequence x many lengths: nothing may be wrong for any rule at any length
+MSeqProp(r) == \A i \in 1..Len(r.lens) : r.bad[i] = <<>> /\ ~r.gen[i]
+\* the memory model, given the spare capacity the target really handed to the EC library, predicts exactly the
+\* corrupted rules
+MSeqSpec(r) == \A i \in 1..Len(r.lens) : SetOf(r.bad[i]) = MultiCorrupted(r.rules, r.lens[i], r.slack[i])
+MultiSpec(r) == {i \in 1..Len(r.per) : ~r.per[i].fresh} = MultiCorrupted(r.rules, r.len, r.slack)
 
 Prop(r) == CASE r.kind = "enc" -> EncProp(r)
              [] r.kind = "dec" -> DecProp(r)
              [] r.kind \in {"rng", "idx"} -> ReconProp(r)
              [] r.kind = "multi" -> MultiProp(r)
+             [] r.kind = "mseq" -> MSeqProp(r)
 SpecEq(r) == CASE r.kind = "enc" -> EncSpec(r)
                [] r.kind = "dec" -> DecSpec(r)
                [] r.kind \in {"rng", "idx"} -> ReconSpec(r)
-               [] r.kind = "multi" -> TRUE
+               [] r.kind = "multi" -> MultiSpec(r)
+               [] r.kind = "mseq" -> MSeqSpec(r)
 
 TraceInit == l = 1 /\ drift = 0
 TraceNext == /\ l <= Len(Recs) /\ l' = l + 1
